@@ -53,11 +53,14 @@ impl Observer for TObs {
             }
         }
     }
-    fn finish(&mut self, _cpu: &mut Cpu, _g: &Guest, outcome: &Outcome, _last: Option<&Row>, _tail: &[String]) -> Result<(), Failure> {
+    fn finish(&mut self, cpu: &mut Cpu, g: &Guest, outcome: &Outcome, last: Option<&Row>, _tail: &[String]) -> Result<(), Failure> {
         if !matches!(outcome, Outcome::Ok) {
             return Err(Failure::new("c17.sys.progress", format!("run ended with {:?}", outcome)));
         }
-        Ok(())
+        // the iteration that reached the exit is not seen at a loop top: its store and its charge count too
+        let row = Row { iter: last.map(|r| r.iter + 1).unwrap_or(0), pc: cpu.verif_pc(), sp: cpu.er[7], ccr: cpu.verif_ccr(), state: cpu.verif_state_sum() as u64, npend: 0 };
+        let ext = std::mem::take(&mut self.ext);
+        self.lock.boundary(cpu, g, &row, last, &ext, &self.pending).map_err(|e| Failure::new("c17.sys.phase", e))
     }
 }
 
